@@ -11,7 +11,8 @@ Theorem c18_anchors :
   /\ anchor_subscribe_restarts_on_closed = true /\ anchor_close_decided_under_lock = true
   /\ anchor_subscribe_write_conn_ctx = true
   /\ anchor_subscribe_registers_before_ctx_test = true /\ anchor_dispatch_by_id_local = true
-  /\ anchor_into_client_message = true /\ anchor_decode_tws = model_decode_tws /\ anchor_decode_gws = model_decode_gws.
+  /\ anchor_into_client_message = true /\ anchor_decode_tws = model_decode_tws /\ anchor_decode_gws = model_decode_gws
+  /\ anchor_connkey_whole_header_multimap = true.
 Proof. exact anchors_ok. Qed.
 Print Assumptions c18_anchors.
 
@@ -105,13 +106,28 @@ Theorem c18_double_remove_noop : forall s c x w s' e,
 Proof. exact double_remove_noop_proof. Qed.
 Print Assumptions c18_double_remove_noop.
 
-(* two subscriptions are registered on one connection only if their option tuples are equal
-   (and equal to the tuple the connection was dialled for) *)
+(* two subscriptions are registered on one connection only if their keys are equal (and equal to the key the
+   connection was dialled for) -- and the key is (endpoint, sub-protocol, EVERY header line, init payload)
+   (Model.conn_key / hdr_lines: what Header.Write feeds to the hash), so that their option tuples agree on the
+   endpoint, the sub-protocol, the init payload and, for EVERY header name, on the whole list of values, in order
+   (Spec.same_opts, stated on the multimap independently of conn_key).
+   Non-vacuity: Proofs.ex_shared, ex_multi_valued_keys. *)
 Theorem c18_shared_iff_same_key : forall idl s log, reach idl s log ->
   forall c x w i w' j, cns s c = Some x -> In (w, i) (c_subs x) -> In (w', j) (c_subs x) ->
-    okey s i = c_key x /\ okey s j = c_key x.
+    okey s i = c_key x /\ okey s j = c_key x
+    /\ forall oi oj, okey s i = conn_key oi -> okey s j = conn_key oj -> same_opts oi oj.
 Proof. exact shared_iff_same_key_proof. Qed.
 Print Assumptions c18_shared_iff_same_key.
+
+(* a key that looks at the first value of every header name only does NOT have this property: X-Scope: [read,
+   tenant-a] and X-Scope: [read, tenant-b] get one key, and the transport keyed by it registers both subscriptions
+   on one connection -- whose upgrade request carried the first subscriber's header values *)
+Theorem c18_shared_iff_same_key_first_value_key_refuted :
+  exists oi oj, conn_key (first_value_opts oi) = conn_key (first_value_opts oj) /\ ~ same_opts oi oj
+    /\ exists s log x, run (init false) (tr_seq (conn_key (first_value_opts oi)) (conn_key (first_value_opts oj))) = Some (s, log)
+                       /\ cns s 0 = Some x /\ In (0%nat, 0%nat) (c_subs x) /\ In (1%nat, 1%nat) (c_subs x).
+Proof. exact first_value_key_refuted_proof. Qed.
+Print Assumptions c18_shared_iff_same_key_first_value_key_refuted.
 
 (* at quiescence, with no idle timer pending, every connection that is not closed has a live
    socket and carries at least one subscription, all of them active and uncancelled *)
